@@ -191,7 +191,7 @@ Print Assumptions c19_rsv_any_order_refuted.
 
 (* finding 4: a terminated pod is charged by the live manager but not by the rebuilt one *)
 Definition c19_witness_terminated_pod : qcase :=
-  mkQCase 1 [mkQD 1 1000 0] [(6, 1); (1, 1); (3, 1); (7, 1)] [].
+  mkQCase 1 true [mkQD 1 1000 0] [(6, 1); (1, 1); (3, 1); (7, 1)] [].
 Theorem c19_quota_used_identical_refuted :
   exists c, qcase_ok c = true /\ prop_quota c (qrun c) = 8.
 Proof. exists c19_witness_terminated_pod. vm_compute. auto. Qed.
